@@ -112,6 +112,23 @@ def catalogue():
   # the others are read one per output after the attack and decay parts
   C["attack(stream sustain)"] = S(lambda s: _attack(2, 3, s), lambda k: 1 if k <= 5 else k - 4, chain=False)
   C["attack(stream sustain, 2.5, 1.5)"] = S(lambda s: _attack(2.5, 1.5, Stream(s)), lambda k: 1 if k <= 5 else k - 4, chain=False)
+  # the broadcast argument given by keyword name (same laziness as by position)
+  C["dB20(data=stream)"] = S(lambda s: dB20(data=abs(Stream(s)) + 1), lambda k: k)
+  C["midi2freq(midi_number=generator)"] = S(lambda s: audiolazy.midi2freq(midi_number=(v for v in s)), lambda k: k, chain=False, kind="gen")
+  C["freq_response(freq=stream)"] = S(lambda s: (1 - z ** -1).freq_response(freq=Stream(s)), lambda k: k, chain=False)
+  # deep stacks of lazy layers: a thousand nested operators / gains are still one item per output
+  def deep_sum(s):
+    t = Stream(s)
+    for i in range(1200):
+      t = t + 0
+    return t
+  def deep_gain(s):
+    t = Stream(s)
+    for i in range(700):
+      t = (t * 1).map(lambda v: v) if i % 100 == 0 else t * 1
+    return t
+  C["1200 nested operators"] = S(deep_sum, lambda k: k, chain=False)
+  C["700 gain stages"] = S(deep_gain, lambda k: k, chain=False)
   C["skip.skip"] = S(lambda s: Stream(s).skip(2).skip(1.0), lambda k: k + 3)
   C["limit5"] = S(lambda s: Stream(s).limit(5), lambda k: min(k, 5), chain=False, finite=5)
   C["islice(4)"] = S(lambda s: li.islice(s, 4), lambda k: min(k, 4), chain=False, finite=4)
